@@ -924,6 +924,8 @@ package lang
 //@ func Parser.atStatementEnd [C13]
 //@   requires parserOK(p)
 //@   updates nothing
+//@   ensures[C13] what-ends-a-statement: result == (old(p.didEndStatement) || old(p.current.Tag) == RCurly || old(p.current.Tag) == SemiColon)
+//@   ensures[C13] only-a-semicolon-is-consumed: !(old(p.current.Tag) == SemiColon && !old(p.didEndStatement)) ==> p.current == old(p.current) && p.didEndStatement == old(p.didEndStatement)
 //@   modifies parserState
 //@   ensures ok: parserOK(p) && p.inLoop == old(p.inLoop) && p.inFunction == old(p.inFunction) && (old(p.previous) != nil ==> p.previous != nil)
 
@@ -963,9 +965,19 @@ package lang
 //@   assert[C07] body-in-loop-context: p.inLoop @ Parser.statement
 //@   ensures ok: parserOK(p) && (err == nil ==> p.previous != nil)
 
+// C13 (a newline between statements may be replaced by ';'): atStatementEnd consumes the ';' it finds, so a
+// statement parser that learns from it that the statement is over has to record that, or the enclosing
+// block sees the next statement's first token and reports "unexpected end of input".
+//@ ghost $sawEnd bool
 //@ func Parser.printStatement [C01,C13]
 //@   requires parserOK(p)
-//@   updates nothing
+//@   updates $sawEnd
+//@   init $sawEnd = false
+//@   after Parser.atStatementEnd: $sawEnd = ret0
+//@   after Parser.expression: $sawEnd = false
+//@   after Parser.consume: $sawEnd = false
+//@   ensures[C13] consumed-terminator-is-recorded: err == nil && $sawEnd ==> p.didEndStatement
+//@   loop 0 invariant[C13] not-yet-ended: !$sawEnd
 //@   modifies parserState
 //@   ensures[C01] errkind: err == nil || isSyn(err)
 //@   ensures[C07,C11] context-restored: p.inLoop == old(p.inLoop) && p.inFunction == old(p.inFunction)
